@@ -74,8 +74,29 @@ func c10Check(cs c10Case) (clause, detail string) {
 			}
 		}
 	}
+	// 3. the same ill-formed request right after a valid instance of the command
+	// on the same connection: whatever the valid one left in the executor must
+	// not make up for what is missing now
+	r3 := runDouble(seq.Script{Input: concat(sel, follow, cs.Bad), Stride: cs.Stride}, setup)
+	alone := runDouble(seq.Script{Input: concat(sel, follow)}, setup)
+	if cl, dt := crashClause(r3.Out); cl != "" {
+		return "after-valid-" + cl, dt
+	}
+	if len(alone.Replies) == 2 && crashOK(alone.Out) {
+		if r3.DecErr != nil || len(r3.Replies) != 3 {
+			return "after-valid-reply-count", fmt.Sprintf("3 requests, replies %s err=%v", valuesString(r3.Replies), r3.DecErr)
+		}
+		if len(r3.Double.Calls) != len(alone.Double.Calls) {
+			return "after-valid-handler-called", "handler invoked for the ill-formed request sent after a valid one: " + callsString(r3.Double.Calls[len(alone.Double.Calls):])
+		}
+		if !r3.Replies[2].IsError() {
+			return "after-valid-not-rejected", "sent after a valid " + cs.Cmd + ", the ill-formed request is answered " + r3.Replies[2].String()
+		}
+	}
 	return "", ""
 }
+
+func crashOK(o srv.Outcome) bool { cl, _ := crashClause(o); return cl == "" }
 
 func c10Run(c *fw.Ctx) {
 	if c.Thorough() {
@@ -180,7 +201,7 @@ func init() {
 	fw.Register(&fw.Prop{
 		ID:    "C10",
 		Level: "exploration",
-		Rule:  "for every command of the grammar: each required positional argument missing (every shorter prefix; empty list tails), a null bulk at each position, each integer position replaced by 8 non-integer/overflowing/fractional tokens and each float/score position by 7 non-numbers (incl. nan, 1e999), each pair list cut to odd lengths, numeric option values (LPOP count, SCAN COUNT, LIMIT, SET expiries) missing / non-numeric / non-positive, every ordered pair of SET NX|XX and of EX|PX|EXAT|PXAT in 3 letter-case variants; each followed by ECHO, a handler probe and a valid instance of the same command; whole and 1-byte delivery. Non-trivial = distinct ill-formed request (the 1-byte re-delivery is not counted).",
+		Rule:  "for every command of the grammar: each required positional argument missing (every shorter prefix; empty list tails), a null bulk at each position, each integer position replaced by 8 non-integer/overflowing/fractional tokens and each float/score position by 7 non-numbers (incl. nan, 1e999), each pair list cut to odd lengths, numeric option values (LPOP count, SCAN COUNT, LIMIT, SET expiries) missing / non-numeric / non-positive, every ordered pair of SET NX|XX and of EX|PX|EXAT|PXAT in 3 letter-case variants; each followed by ECHO, a handler probe and a valid instance of the same command, and each also sent right after a valid instance of the same command; whole and 1-byte delivery. Non-trivial = distinct ill-formed request (the 1-byte re-delivery is not counted).",
 		Assumptions: []string{
 			"forms Redis rejects but the statement does not mention (surplus arguments, unknown option words, KEEPTTL with an expiry, '+1') carry no expectation and are not generated",
 		},
